@@ -136,6 +136,22 @@ func returnsGlobal(fns []*ssa.Function, name string) (bool, ssa.Instruction) {
 					return true
 				}
 			}
+		case *ssa.Parameter:
+			// the helper hands back what it was handed (report(..., err) error): what its callers pass
+			fnP := x.Parent()
+			idx := -1
+			for i, q := range fnP.Params {
+				if q == x {
+					idx = i
+				}
+			}
+			for _, fn0 := range fns {
+				for _, c := range core.Calls(fn0) {
+					if c.Common().StaticCallee() == fnP && idx >= 0 && idx < len(c.Common().Args) && has(c.Common().Args[idx], d+1) {
+						return true
+					}
+				}
+			}
 		case *ssa.Call:
 			// a module helper that maps / passes the error on
 			cals := []*ssa.Function{x.Common().StaticCallee()}
@@ -507,6 +523,74 @@ func c11(r *core.Run) {
 					}
 				}
 			}
+			// the test may sit in a helper that *produces* the id to write under (`id, err := wt.createID()`):
+			// it tests the transaction's id against "" and Create writes only on the helper's err == nil edge
+			if !good {
+				var writes []ssa.Instruction
+				for _, h := range p.Helpers(cr) {
+					for _, b := range h.Blocks {
+						for _, in := range b.Instrs {
+							if mu, ok := in.(*ssa.MapUpdate); ok {
+								writes = append(writes, p.Lift(mu, cr)...)
+							}
+						}
+					}
+					for _, c := range core.Calls(h) {
+						if cal := c.Common().StaticCallee(); cal != nil && cal.Name() == "Update" && strings.HasSuffix(cal.String(), "badger.DB).Update") {
+							writes = append(writes, p.Lift(c, cr)...)
+						}
+					}
+				}
+				for _, c := range core.Calls(cr) {
+					hc, isCall := c.(*ssa.Call)
+					cal := c.Common().StaticCallee()
+					if !isCall || cal == nil || len(cal.Blocks) == 0 || cal.Pkg != cr.Pkg || cal.Signature.Results().Len() != 2 {
+						continue
+					}
+					tests := false
+					for _, hb := range cal.Blocks {
+						if iff, ok := hb.Instrs[len(hb.Instrs)-1].(*ssa.If); ok {
+							ci := core.Cond(iff.Cond)
+							if ci.Kind == "constcmp" && ci.Const != nil && ci.Const.ExactString() == `""` && ((ci.HasFld && ci.Field == idF) || loadsFieldThroughCell(ci.X, idF)) {
+								tests = true
+							}
+						}
+					}
+					var errV ssa.Value
+					if hc.Referrers() != nil {
+						for _, rf := range *hc.Referrers() {
+							if ex, ok := rf.(*ssa.Extract); ok && types.TypeString(ex.Type(), nil) == "error" {
+								errV = ex
+							}
+						}
+					}
+					if !tests || errV == nil || len(writes) == 0 {
+						continue
+					}
+					all := true
+					for _, w := range writes {
+						dom := false
+						for _, ed := range dominatingEdges(w) {
+							ci := core.Cond(ed.If.Cond)
+							if ci.Kind == "nilcmp" && ci.X == errV {
+								truth := ed.Succ == 0
+								if ci.Negate {
+									truth = !truth
+								}
+								if (ci.Op == token.EQL) == truth {
+									dom = true
+								}
+							}
+						}
+						if !dom {
+							all = false
+						}
+					}
+					if all {
+						good = true
+					}
+				}
+			}
 			r.Check(good, "E2", core.FuncName(cr), "empty-id-tested-before-write", p.Pos(cr.Pos()), "Create tests the id for \"\" before writing", "Create does not test for an empty id before writing: a value is stored under the bare prefix")
 		}
 
@@ -797,6 +881,19 @@ func c11Callbacks(r *core.Run, rel, name string, m *ssa.Function, idF core.Field
 			}
 		}
 	}
+	// a "report" wrapper: a private helper that is handed the mutation's error, returns it untouched
+	// when it is non-nil (no fan-out) and otherwise fans out exactly once and returns nil:
+	// `return st.reportChange(id, before, after, err)` is then right by construction
+	wrappers := map[ssa.Instruction]*ssa.Call{}
+	for _, c := range core.Calls(m) {
+		call, ok := c.(*ssa.Call)
+		if !ok {
+			continue
+		}
+		if h := call.Common().StaticCallee(); h != nil && h != m && p.IsPrivateHelper(h) && c11IsReportWrapper(h, isFanout) {
+			wrappers[call] = call
+		}
+	}
 	fl := &core.Flow{Fn: m, Entry: core.StateSet(0).Add(0)}
 	fl.Transfer = func(in ssa.Instruction, s int) core.StateSet {
 		if isFanout(in) && s < 2 {
@@ -809,6 +906,12 @@ func c11Callbacks(r *core.Run, rel, name string, m *ssa.Function, idF core.Field
 		st := res.Before[ret]
 		if st.Empty() {
 			continue
+		}
+		if len(ret.Results) == 1 {
+			if wc, ok := ret.Results[0].(*ssa.Call); ok && wrappers[wc] != nil {
+				r.Check(res.Before[wc].Only(0), "C1", core.FuncName(m), "nil-return=>exactly-one-fanout:via-report-helper", p.InstrPos(ret), "the result is that of the report helper, which fans out exactly once iff the mutation's error is nil; nothing fanned out before it", fmt.Sprintf("a change fan-out already ran before the report helper is called (%v)", res.Before[wc].List()))
+				continue
+			}
 		}
 		var conds []string
 		for _, ed := range dominatingEdges(ret) {
@@ -830,6 +933,24 @@ func c11Callbacks(r *core.Run, rel, name string, m *ssa.Function, idF core.Field
 		args []ssa.Value // id, before, after
 	}
 	var fsites []fanSite
+	viaWrapper := map[ssa.Instruction]bool{}
+	for wc := range wrappers {
+		call := wc.(*ssa.Call)
+		h := call.Common().StaticCallee()
+		rs := core.NewResolver()
+		rs.Bind(call)
+		for _, hc := range core.Calls(h) {
+			if isFanout(hc) {
+				var args []ssa.Value
+				for _, a := range hc.Common().Args[1:] {
+					args = append(args, rs.R(a))
+				}
+				// the listeners' own arguments when the fan-out function forwards them unchanged
+				fsites = append(fsites, fanSite{call, args})
+				viaWrapper[call] = true
+			}
+		}
+	}
 	for _, c := range core.Calls(m) {
 		if isFanout(c) {
 			// the listeners' arguments as the fan-out function passes them, expressed in the caller's values
@@ -892,6 +1013,9 @@ func c11Callbacks(r *core.Run, rel, name string, m *ssa.Function, idF core.Field
 				}
 			}
 		}
+		if viaWrapper[c] {
+			okEdge = true // the report helper fans out on its own error==nil edge (checked with the helper)
+		}
 		r.Check(okEdge, "C1", core.FuncName(m), "fanout-on-success-edge", p.InstrPos(c), "callbacks run only after the mutation's error was observed nil", "callbacks are not dominated by the success edge of the mutation")
 		if len(fs.args) < 3 {
 			r.Bad("C1", core.FuncName(m), "fanout-args", p.InstrPos(c), "the listeners are not called with (id, before, after)")
@@ -915,6 +1039,9 @@ func c11Callbacks(r *core.Run, rel, name string, m *ssa.Function, idF core.Field
 					continue // generated by a hook field of the store
 				}
 			}
+			if s0, isC := core.ConstString(lf.V); isC && s0 == "" && len(valueLeaves(args[1], nil, 0)) > 1 {
+				continue // the id an id-producing helper returns together with its error
+			}
 			idok = false
 		}
 		r.Check(idok && nID > 0, "C1", core.FuncName(m), "fanout-arg-id=txn.id", p.InstrPos(c), "id is the transaction's id", "callbacks get "+valDesc(args[1])+" as id")
@@ -930,6 +1057,72 @@ func c11Callbacks(r *core.Run, rel, name string, m *ssa.Function, idF core.Field
 			r.Check(!beforeNil && afterNil && beforeFromSameTxn(args[2], m), "C1", core.FuncName(m), "fanout-args(before-read-in-txn,nil)", p.InstrPos(c), "delete reports (value read in the same transaction/critical section, nil)", "delete reports before="+valDesc(args[2])+" after="+valDesc(args[3]))
 		}
 	}
+}
+
+// c11IsReportWrapper: h has an error parameter e and one error result; every
+// return on the e != nil edge returns e and no fan-out precedes it; every
+// other return is reached only on the e == nil edge, returns nil, and exactly
+// one fan-out call dominates it.
+func c11IsReportWrapper(h *ssa.Function, isFanout func(ssa.Instruction) bool) bool {
+	if h.Signature.Results().Len() != 1 || types.TypeString(h.Signature.Results().At(0).Type(), nil) != "error" {
+		return false
+	}
+	var e *ssa.Parameter
+	for _, prm := range h.Params {
+		if types.TypeString(prm.Type(), nil) == "error" {
+			if e != nil {
+				return false
+			}
+			e = prm
+		}
+	}
+	if e == nil {
+		return false
+	}
+	var fans []ssa.Instruction
+	for _, b := range h.Blocks {
+		for _, in := range b.Instrs {
+			if isFanout(in) {
+				fans = append(fans, in)
+			}
+		}
+	}
+	if len(fans) == 0 {
+		return false
+	}
+	nOK := 0
+	for _, ret := range core.Returns(h) {
+		onErr, onNil := false, false
+		for _, ed := range dominatingEdges(ret) {
+			ci := core.Cond(ed.If.Cond)
+			if ci.Kind != "nilcmp" || core.Strip(ci.X) != ssa.Value(e) {
+				continue
+			}
+			truth := ed.Succ == 0
+			if ci.Negate {
+				truth = !truth
+			}
+			if (ci.Op == token.NEQ) == truth {
+				onErr = true
+			} else {
+				onNil = true
+			}
+		}
+		nDom := 0
+		for _, f := range fans {
+			if core.Dominates(f, ret) {
+				nDom++
+			}
+		}
+		switch {
+		case onErr && ret.Results[0] == ssa.Value(e) && nDom == 0:
+		case onNil && isNilConst(ret.Results[0]) && nDom == 1:
+			nOK++
+		default:
+			return false
+		}
+	}
+	return nOK > 0
 }
 
 func isNilConst(v ssa.Value) bool {
